@@ -616,6 +616,42 @@ def check_ip_reencode(args):
         return "IP header %s decodes (flags=%d, fragment_offset=%d) and re-encodes as %s" % (h.hex(), q.flags, q.fragment_offset, b[:20].hex())
     return None
 
+def check_ip_reencode_shared(args):
+    """the same law when ONE IP object decodes and re-encodes a sequence of datagrams (e.g. the fragments of one
+    datagram: same addresses and flags, different fragment offsets): each comes back as its own 20 bytes"""
+    import AcraNetwork.SimpleEthernet as se
+    q = se.IP()
+    for k, (hh, pp) in enumerate(args["datagrams"]):
+        h, p = bytes.fromhex(hh), bytes.fromhex(pp)
+        q.unpack(h + p)
+        b = q.pack()
+        if b != h + p:
+            return "datagram %d of %d decoded and re-encoded by one IP object: header %s (flags=%d, fragment_offset=%d) comes back as %s" % (
+                k, len(args["datagrams"]), h.hex(), q.flags, q.fragment_offset, b[:20].hex())
+    return None
+
+def check_eth_type_roundtrip(args):
+    """every ethertype survives encode/decode unchanged (0x8100 only behind a tag): fields, payload, re-encode"""
+    import AcraNetwork.SimpleEthernet as se
+    vlan, fcs, p = args["vlan"], args["fcs"], bytes.fromhex(args["payload"])
+    for ty in args["types"]:
+        if ty == 0x8100 and not vlan:
+            continue
+        e = se.Ethernet()
+        e.dstmac, e.srcmac, e.type, e.payload, e.vlan = 0x010203040506, 0x0A0B0C0D0E0F, ty, p, vlan
+        if vlan:
+            e.vlantag = 0x2ABC
+        b = e.pack(fcs)
+        q = se.Ethernet()
+        q.unpack(b, fcs)
+        got = (q.dstmac, q.srcmac, int(q.type), q.payload, bool(q.vlan), q.vlantag)
+        want = (0x010203040506, 0x0A0B0C0D0E0F, ty, p, vlan, 0x2ABC if vlan else 0xFFFF)
+        if got != want:
+            return "Ethernet round trip (vlan=%s, fcs=%s, ethertype 0x%04X) changes the fields: %r -> %r" % (vlan, fcs, ty, want, got)
+        if q.pack(fcs) != b:
+            return "Ethernet re-encode of a decoded frame with ethertype 0x%04X differs" % ty
+    return None
+
 def wire_header(rng, n):
     h = bytearray(rng.bytes_(20))
     h[0] = 0x45
@@ -781,6 +817,31 @@ def oracles_C02(ctx, hints):
         args = {"header": wire_header(rng, plen).hex(), "payload": rng.bytes_(plen).hex(), "pad": rng.bytes_(rng.choice([0, 0, 2, 46])).hex()}
         if run("ip_reencode", check_ip_reencode, args, {"class": "IP", "check": "reencode"}):
             break
+    # one IP object decodes and re-encodes the fragments of one datagram (same addresses / flags, other offsets)
+    for j in range(ctx.scale(60, 1500) * k):
+        base = bytearray(wire_header(rng, 8))
+        dgs = []
+        for i in range(rng.randrange(2, 5)):
+            h = bytearray(base)
+            if rng.random() < 0.8:
+                off = rng.boundary(13)
+                h[6] = (h[6] & 0xE0) | (off >> 8)
+                h[7] = off & 0xFF
+            else:
+                h[8] = rng.boundary(8)
+            h[10:12] = b"\0\0"
+            h[10:12] = ref_rfc1071(bytes(h)).to_bytes(2, "big")
+            dgs.append([bytes(h).hex(), rng.bytes_(8).hex()])
+        if run("ip_reencode_shared", check_ip_reencode_shared, {"datagrams": dgs}, {"class": "IP", "check": "reencode", "directed": "shared_object"}):
+            break
+    # every ethertype that occurs as a literal anywhere in the library's source (sync words, other protocols'
+    # type codes, …), its neighbours and byte-swapped forms, plus a random block of the 16-bit range
+    types = sorted(set(rng.dictionary(16)) | set(range(0x8000, 0x9000)) | set(rng.getrandbits(16) for _ in range(ctx.scale(200, 8000))))
+    for vlan in (False, True):
+        for fcs in (False, True):
+            args = {"vlan": vlan, "fcs": fcs, "types": types, "payload": rng.bytes_(rng.choice([0, 5, 46])).hex()}
+            if run("eth_type_roundtrip", check_eth_type_roundtrip, args, {"class": "Ethernet", "check": "roundtrip", "directed": "ethertype_sweep"}):
+                break
     for j in range(ctx.scale(100, 3000) * k):
         plen = rng.choice([0, 1, 2, 9, 1472]) if j % 30 else 65527
         args = {"srcport": rng.boundary(16), "dstport": rng.boundary(16), "payload": rng.bytes_(plen).hex()}
@@ -1233,6 +1294,42 @@ def check_pcap_sessions(args):
         shutil.rmtree(d, True)
     return None
 
+def check_pcap_mixed_access(args):
+    """by iteration or by index, in any interleaving on ONE open reader: `p[i]` is record i (None past the end),
+    whatever was read before it"""
+    import AcraNetwork.Pcap as pcap
+    recs = [(s, u, bytes.fromhex(p)) for s, u, p in args["records"]]
+    d = _tmp()
+    try:
+        fn = os.path.join(d, "m.pcap")
+        f = pcap.Pcap(fn, mode="w")
+        for s, u, p in recs:
+            r = pcap.PcapRecord()
+            r.sec, r.usec, r.payload = s, u, p
+            f.write(r)
+        f.close()
+        want = [(s, u, len(p), len(p), p) for s, u, p in recs]
+        g = pcap.Pcap(fn)
+        done = []
+        for op in args["ops"]:
+            done.append(op)
+            if op == "next":
+                try:
+                    next(g)
+                except StopIteration:
+                    pass
+            else:
+                r = g[op]
+                exp = want[op] if 0 <= op < len(want) else None
+                got = None if r is None else (r.sec, r.usec, r.incl_len, r.orig_len, r.payload)
+                if got != exp:
+                    return "Pcap[%d] of a %d-record file after the accesses %r returns %s, not record %d" % (
+                        op, len(want), done[:-1], "None" if got is None else "another record (sec=%d)" % got[0], op)
+        g.close()
+    finally:
+        shutil.rmtree(d, True)
+    return None
+
 def expected_after_truncation(recs, t):
     """the property's statement: every record completely present, then at most one shortened final record"""
     out, pos = [], 24
@@ -1310,6 +1407,32 @@ def oracles_C05(ctx, hints):
         w = check_pcap_sessions(args)
         if w:
             fails.append(Failure("pcap_sessions", args, w, {"class": "Pcap", "check": "write_read", "directed": "zero_session"}))
+            break
+    # any 32-bit sec/usec: every wide literal of the library's own source (magic numbers, sync words, their
+    # byte-swapped forms and neighbours) as a time stamp of a record in the middle of a file
+    wide = [v for v in rng.dictionary(32) if v >= 0x10000]
+    for j in range(0, len(wide), 2):
+        vs = wide[j:j + 2]
+        recs = [[1, 2, rng.bytes_(5).hex()]]
+        for v in vs:
+            recs.append([v, rng.boundary(32), rng.bytes_(rng.choice([0, 16, 33])).hex()])
+            recs.append([rng.boundary(32), v, rng.bytes_(rng.choice([1, 16])).hex()])
+        recs.append([3, 4, rng.bytes_(7).hex()])
+        args = {"records": recs, "splits": [len(recs)]}
+        n += 1
+        w = check_pcap_sessions(args)
+        if w:
+            fails.append(Failure("pcap_sessions", args, w, {"class": "Pcap", "check": "write_read", "directed": "literal_timestamps"}))
+            break
+    for j in range(ctx.scale(60, 1500) * k):            # indexing and iteration interleaved on one reader
+        cnt = rng.randrange(1, 7)
+        recs = [[rng.boundary(32), rng.boundary(32), rng.bytes_(rng.choice([0, 1, 5, 16])).hex()] for _ in range(cnt)]
+        ops = [rng.choice(["next", "next", rng.randrange(0, cnt), rng.randrange(0, cnt + 2)]) for _ in range(rng.randrange(2, 9))]
+        args = {"records": recs, "ops": ops}
+        n += 1
+        w = check_pcap_mixed_access(args)
+        if w:
+            fails.append(Failure("pcap_mixed_access", args, w, {"class": "Pcap", "check": "write_read", "directed": "mixed_access"}))
             break
     shapes = list(EMPTY_SHAPES)
     for j in range(ctx.scale(6, 60) * k + len(shapes)):
@@ -1604,6 +1727,8 @@ def oracles_C09(ctx, hints):
 
 ORACLES = {
     "eth_layout": check_eth_layout, "ip_layout": check_ip_layout, "ip_reencode": check_ip_reencode,
+    "ip_reencode_shared": check_ip_reencode_shared, "eth_type_roundtrip": check_eth_type_roundtrip,
+    "pcap_mixed_access": check_pcap_mixed_access,
     "udp_layout": check_udp_layout, "arp_layout": check_arp_layout, "rec_layout": check_rec_layout, "stack": check_stack,
     "ipv4_checksum": check_ipv4_checksum, "icmp_checksum": check_icmp_checksum, "igmp_join": check_igmp_join,
     "igmp_query": check_igmp_query, "eth_fcs": check_eth_fcs, "wire_verifies": check_wire_verifies, "stack_file": check_stack_file,
